@@ -5,7 +5,7 @@ ID = "C01"
 LEVEL = "model_checking"
 RULE = ("all rooted DAG shapes x dep listing orders x task kinds (run_command/run_experiment/group/combine) x parallelizable flags "
         "x --jobs 1..3 x single failing task, each explored under the virtual kernel over every completion order (deviation 0) and "
-        "every exit batching/delivery deviation up to the bound; monitor on the kernel event log: every execution of every "
+        "every exit batching/delivery deviation up to the bound (also with one of the tasks in flight failing); monitor on the kernel event log: every execution of every "
         "transitive dependency exited 0 before the dependent starts, no dependency starts after its dependent; distinct = "
         "distinct (case, terminal event order)")
 ASSUMPTIONS = [
@@ -68,6 +68,15 @@ def items(tier):
             for jobs in (2, 3):
                 pars = [True] * len(g)
                 add({"g": g, "kinds": kinds, "pars": pars, "jobs": jobs, "fails": {}}, 1 if tier == "quick" else 2)
+    # E: a failing task while its siblings are in flight, with batched / deferred exit delivery (one handler run reaping
+    # children with different exit statuses)
+    for g in list(rungrid.graphs_upto((3,))) + (list(rungrid.graphs_upto((4,), shared_only_from=4)) if tier == "thorough" else []):
+        n = len(g)
+        for kinds in (["cmd"] * n, ["exp"] * n):
+            for jobs in (2, 3):
+                for f in range(1, n):
+                    for st in (["exit", 10 + f], ["signal", 9]):
+                        add({"g": g, "kinds": kinds, "pars": [True] * n, "jobs": jobs, "fails": {str(f): st}}, 1 if tier == "quick" else 2)
     if tier == "thorough":
         for g in rungrid.graphs_upto((5,)):
             out.append({"case": {"g": g, "kinds": ["cmd"] * 5, "pars": [True, True, False, True, True], "jobs": 2, "fails": {}}, "bound": 0})
